@@ -1044,6 +1044,7 @@ def store_site_coverage(repo, tier):
     sites = [(XLSX_PY, "xlsx_extractor.py", "_read_sheet_data", {"_get_cell_value": "n"}, ("return", None, None), "sheet-data-only-from-_get_cell_value"),
              (XLS_PY, "xls_extractor.py", None, {"_get_cell_values": pair}, ("kwarg", "XlsSheet", "data"), "sheet-data-only-from-_get_cell_values"),
              (ODS_PY, "ods_extractor.py", None, {"_extract_cell_value": pair}, ("attr", "data", None), "sheet-data-only-from-_extract_cell_value")]
+    flows = {}
     for rel, short, fname, norm, sink, label in sites:
         m = loader.module(rel, repo)
         cands = [(fname, m.functions.get(fname))] if fname else list(m.functions.items())
@@ -1052,7 +1053,10 @@ def store_site_coverage(repo, tier):
             if fn is None:
                 continue
             try:
-                pv_ = R.Provenance(fn, norm)
+                mf_ = flows.get(rel)
+                if mf_ is None:
+                    mf_ = flows[rel] = R.ModuleFlow(m, norm)        # helpers of the module are summarised by what they return
+                pv_ = R.Provenance(fn, norm, None, mf_.ret_shape)
                 got = pv_.sinks(*sink)
             except Exception as e:  # noqa  (a shape the interpreter does not know: undecided, never an engine error)
                 why.append(f"{q}: provenance analysis failed ({type(e).__name__})")
@@ -1128,6 +1132,16 @@ def dict_field_keys(repo, tier):
             except Exception as e:  # noqa  (unexpected shape: undecided, never an engine error)
                 kc, why = "raw", why + [f"analysis failed: {type(e).__name__}: {e}"]
             key = f"{name}.{fname}"
+            if R.shape_has_str_keyed_dict(shape):
+                # the serialiser writes str(key) and the decoder rebuilds values only: a key that is not a str object comes back as a
+                # different key (1 -> '1'), so the restored mapping differs although to_json() is the same
+                soid = f"C05/data_types.py::{name}.{fname}/dict-keys#keys-are-str"
+                if kc in ("bot", "lit", "str", "marker"):
+                    obls.append(ground_obligation(soid, True, f"{sites} construction site(s); every key is a string literal or an expression of kind str (c05kinds)",
+                                                  DT_PY, kind="dict-keys", backend="dataflow"))
+                else:
+                    obls.append(ground_obligation(soid, False, f"a key stored into {key} (declared Dict[str, ...]) is not shown to be a str object: " + "; ".join(why)[:300],
+                                                  DT_PY, kind="dict-keys", backend="dataflow", definite=False))
             if kc in ("bot", "lit"):
                 obls.append(ground_obligation(oid, True, f"{sites} construction site(s); keys: {'string literals of the code' if kc == 'lit' else 'no mapping is ever stored'}",
                                               DT_PY, kind="dict-keys", backend="dataflow"))
@@ -1149,6 +1163,79 @@ def dict_field_keys(repo, tier):
                                   "Any-typed fields: " + ", ".join(sorted(covered_any)) + " (TableData.data receives sheet rows / str tables: BOUNDED by the native cell-kind scopes)",
                                   DT_PY, kind="registry", backend="ground", definite=False))
     return {"obligations": obls}
+
+
+def field_store_kinds(repo, tier):
+    """Stores into declared fields after construction keep the field inside its hint: for every method of a registered dataclass,
+    every `self.<field> = e` has kinds(e) within the kinds of the field's annotation (c05kinds: constants, str()/f-strings/str methods,
+    annotated parameters, other fields of self, pathlib name/suffix, conditional expressions; helper results per call site).
+    The type-directed lemmas quantify over instances whose fields inhabit their hints; a method that stores a pathlib.Path into a
+    `str | None` field leaves that universe (to_json() is then not JSON).  A kind that is not recognised, or one outside the hint,
+    makes the obligation `unknown`; the native path / instance scopes then decide."""
+    from contracts import c05registry as R
+    from contracts import c05kinds as K
+    obls, fns = [], []
+    try:
+        d = R.derive(repo)
+        m = d["module"]
+        mk = K.ModuleKinds(m)
+        top = {n.name: n for n in m.tree.body if isinstance(n, ast.ClassDef)}
+
+        def field_anns(cn, seen=()):
+            out = {}
+            for b in cn.bases:
+                bn = getattr(b, "id", None)
+                if bn in top and bn not in seen:
+                    out.update(field_anns(top[bn], seen + (cn.name,)))
+            for b in cn.body:
+                if isinstance(b, ast.AnnAssign) and isinstance(b.target, ast.Name):
+                    out[b.target.id] = b.annotation
+            return out
+        for cname in sorted(d["classes"]):
+            cn = top[cname]
+            anns = field_anns(cn)
+            for fn in cn.body:
+                if not isinstance(fn, (ast.FunctionDef, ast.AsyncFunctionDef)) or not (fn.args.posonlyargs + fn.args.args):
+                    continue
+                if any(getattr(dec, "id", None) in ("staticmethod", "classmethod") for dec in fn.decorator_list):
+                    continue
+                me = (fn.args.posonlyargs + fn.args.args)[0].arg
+                stores = []
+                for n in ast.walk(fn):
+                    tg = n.targets if isinstance(n, ast.Assign) else [n.target] if isinstance(n, (ast.AnnAssign, ast.AugAssign)) and getattr(n, "value", None) is not None else []
+                    for t in tg:
+                        for t1 in (t.elts if isinstance(t, (ast.Tuple, ast.List)) else [t]):
+                            if isinstance(t1, ast.Attribute) and isinstance(t1.value, ast.Name) and t1.value.id == me and t1.attr in anns:
+                                stores.append((n, t1, isinstance(t, (ast.Tuple, ast.List))))
+                if not stores:
+                    continue
+                kk = K.Kinds(fn, anns, mk.call_kinds, call_parts=mk.call_parts)
+                why = []
+                for n, t1, unpacked in stores:
+                    allowed = K.ann_kinds(anns[t1.attr])
+                    if "unknown" in allowed:
+                        continue                                            # Any / unparsed hint: nothing to keep
+                    if unpacked:
+                        kinds = {"unknown"}
+                    elif isinstance(n, ast.AugAssign):
+                        kinds = kk.of(ast.BinOp(left=ast.Attribute(value=ast.Name(id=me, ctx=ast.Load()), attr=t1.attr, ctx=ast.Load()), op=n.op, right=n.value))
+                    else:
+                        kinds = kk.of_stmt(n, n.value) or {"unknown"}
+                    bad = K.fits(kinds, allowed)
+                    if bad:
+                        why.append(f"line {n.lineno}: self.{t1.attr} (declared {ast.unparse(anns[t1.attr])}) = {ast.unparse(n.value)[:60]} may be {', '.join(bad)}")
+                q = f"{cname}.{fn.name}"
+                obls.append(ground_obligation(f"C05/data_types.py::{q}/field-stores#stored-values-inhabit-the-declared-hint", not why,
+                                              "; ".join(why)[:400] or f"{len(stores)} store(s) into declared fields, each within its hint", DT_PY,
+                                              kind="field-stores", backend="dataflow", definite=False))
+                try:
+                    fns.append(dict(m.fn_info(q), obligations=1))
+                except Exception:  # noqa
+                    pass
+    except Exception as e:  # noqa  (unexpected shape: undecided, never an engine error)
+        obls.append(ground_obligation("C05/data_types.py::registry/field-stores#analysis-ran", False, f"kind flow failed: {type(e).__name__}: {e}", DT_PY,
+                                      kind="field-stores", backend="dataflow", definite=False))
+    return {"obligations": obls, "functions": fns}
 
 
 def native_scope(repo, tier):
@@ -1184,7 +1271,7 @@ def native_scope(repo, tier):
     return {"obligations": obls, "undecided": und}
 
 
-EXTRA = [registry, covers, glue, store_site_coverage, dict_field_keys, native_scope]
+EXTRA = [registry, covers, glue, store_site_coverage, dict_field_keys, field_store_kinds, native_scope]
 
 
 def recorded_exclusions():
